@@ -46,6 +46,7 @@ RULE = {
 ASSUMPTIONS = [
     "input timestamps are non-decreasing (the stated domain)",
     "the buffer capacity after the resampler estimated the input period is an internal estimate and is existentially quantified",
+    "through a MovingWindow a sample that arrives at the very instant of a tick may be forwarded to the resampler after that tick",
 ]
 MIN_LABELS = {"C08": {"sample_on_upper_edge": 0.3, "sample_on_lower_edge": 0.1, "future_sample_pending": 0.3,
                       "silence_then_data": 0.1, "input_period_estimated": 0.1}}
@@ -67,6 +68,9 @@ def strategy(tier: str, pid: str = "C08") -> st.SearchStrategy[Any]:
         "ticks": st.lists(silent_or_busy, min_size=3, max_size=20 if tier == "quick" else 60),
         # "dst": the run starts 3 s before a daylight-saving switch and the samples are stamped in that zone
         "zone": st.sampled_from(["utc", "utc", "utc", "dst"]),
+        # 0: a Resampler driven tick by tick; 1-2: the same samples through a MovingWindow of that many periods that owns
+        # its resampler (the recorder still sees what the resampling function is given)
+        "window_periods": st.sampled_from([0, 0, 0, 1, 2]),
     })
 
 
@@ -90,12 +94,12 @@ def run_case(case: Any, pid: str) -> Verdict:
         return 1.0
 
     arrived: list[tuple[datetime, float]] = []  # valid samples in arrival order
+    at_tick: list[bool] = []  # ... and whether the sample arrived at the very instant of a tick
     flags = {"silent_run": 0}
 
     async def scenario() -> None:
         cfg = ResamplerConfig(resampling_period=p, max_data_age_in_periods=age, resampling_function=recorder,
                               initial_buffer_len=case["ibl"], align_to=None)
-        resampler = Resampler(cfg)
         chan: Any = Broadcast(name="c08")
         rx = chan.new_receiver(limit=100000)
         out: list[Any] = []
@@ -103,7 +107,19 @@ def run_case(case: Any, pid: str) -> Verdict:
         async def sink(sample: Any) -> None:
             out.append(sample)
 
-        resampler.add_timeseries("x", rx, sink)
+        wper = case.get("window_periods", 0)
+        mwin: Any = None
+        if wper:
+            from frequenz.sdk.timeseries._moving_window import MovingWindow  # pylint: disable=import-outside-toplevel
+
+            mwin = MovingWindow(size=p * wper, resampled_data_recv=rx, input_sampling_period=p, resampler_config=cfg,
+                                align_to=t0)
+            mwin.start()
+            resampler = mwin._resampler  # pylint: disable=protected-access
+            v.labels.add("through_a_moving_window_that_owns_the_resampler")
+        else:
+            resampler = Resampler(cfg)
+            resampler.add_timeseries("x", rx, sink)
         sender = chan.new_sender()
         last_ts = t0 - timedelta(days=1)
         ctr = 0
@@ -124,28 +140,37 @@ def run_case(case: Any, pid: str) -> Verdict:
                 await world.settle()
                 if kind == "v":
                     arrived.append((stamp, float(ctr)))
+                    at_tick.append(t_arr >= t_end)
                     if stamp > t_end:
                         pending_future.append(stamp)
             wait = (t_end - world.now()).total_seconds()
             if wait > 0:
                 await asyncio.sleep(wait)
             await world.settle()
-            calls.pop("cur", None)
-            n_before = len(out)
-            try:
-                await resampler.resample(one_shot=True)
-            except Exception as exc:  # pylint: disable=broad-except
-                v.fail(f"tick {n}: resample() raised {type(exc).__name__}: {str(exc)[:300]}")
-                return
-            if len(out) != n_before + 1:
-                v.fail(f"tick {n}: {len(out) - n_before} samples emitted for one tick")
-                return
-            emitted = out[-1]
-            if emitted.timestamp != t_end:
-                v.fail(f"tick {n}: emitted sample stamped {emitted.timestamp}, expected {t_end}")
-                return
+            if mwin is None:
+                calls.pop("cur", None)
+                n_before = len(out)
+                try:
+                    await resampler.resample(one_shot=True)
+                except Exception as exc:  # pylint: disable=broad-except
+                    v.fail(f"tick {n}: resample() raised {type(exc).__name__}: {str(exc)[:300]}")
+                    return
+                if len(out) != n_before + 1:
+                    v.fail(f"tick {n}: {len(out) - n_before} samples emitted for one tick")
+                    return
+                emitted = out[-1]
+                if emitted.timestamp != t_end:
+                    v.fail(f"tick {n}: emitted sample stamped {emitted.timestamp}, expected {t_end}")
+                    return
+                source = rx
+            else:
+                # the window's own resampling task has handled this tick by now (the recorder ran if anything was relevant)
+                source = next(iter(resampler._resamplers))  # pylint: disable=protected-access
+                emitted = None
             called = "cur" in calls
-            recorded, p_in = calls.get("cur", ([], resampler.get_source_properties(rx).sampling_period))
+            recorded, p_in = calls.get("cur", ([], resampler.get_source_properties(source).sampling_period))
+            if mwin is not None:
+                calls.pop("cur", None)
             if p_in is not None:
                 v.labels.add("input_period_estimated")
             win = max(p, p_in) if p_in is not None else p
@@ -161,21 +186,29 @@ def run_case(case: Any, pid: str) -> Verdict:
                 return
             caps = [case["ibl"]] if p_in is None else range(1, max(len(arrived), 1) + 1)
             ok = False
-            for c in caps:
-                want = [s for s in arrived[-c:] if lo < s[0] <= t_end]
-                if want == recorded:
-                    ok = True
-                    break
+            pools = [arrived]
+            if mwin is not None and any(at_tick):
+                # through the window a sample that arrives at the very instant of the tick may be forwarded after it
+                k_cut = len(arrived)
+                while k_cut > 0 and at_tick[k_cut - 1]:
+                    k_cut -= 1
+                pools += [arrived[:k] for k in range(k_cut, len(arrived))]
+            for pool in pools:
+                for c in caps:
+                    want = [s for s in pool[-c:] if lo < s[0] <= t_end]
+                    if want == recorded:
+                        ok = True
+                        break
             if not arrived and not recorded:
                 ok = True
             if not ok:
                 v.fail(f"tick {n} (T={t_end}, window ({lo}, T], reported input period {p_in}, initial buffer {case['ibl']}): "
                        f"function got {recorded}; valid arrivals (newest last) {arrived[-8:]}")
                 return
-            if (emitted.value is None) != (not recorded) or called != bool(recorded):
+            if emitted is not None and ((emitted.value is None) != (not recorded) or called != bool(recorded)):
                 v.fail(f"tick {n}: emitted value {emitted.value}, function called={called}, relevant samples {recorded}")
                 return
-            if arrived and lo < arrived[-1][0] <= t_end and not recorded:
+            if arrived and lo < arrived[-1][0] <= t_end and not recorded and not (mwin is not None and at_tick[-1]):
                 v.fail(f"tick {n}: the newest arrival {arrived[-1]} is inside the window but nothing was passed")
                 return
             # classification
@@ -191,6 +224,8 @@ def run_case(case: Any, pid: str) -> Verdict:
                 if flags["silent_run"] > age and arrived:
                     v.labels.add("silence_then_data")
                 flags["silent_run"] = 0
+        if mwin is not None:
+            await mwin.stop()
         await resampler.stop()
 
     world.run(scenario, t0=t0)
